@@ -515,7 +515,11 @@ func (t *translator) uiBuiltin(name string, x *ast.CallExpr, sub func(ast.Expr) 
 			t.fail(x, "append with other than one element")
 		}
 		t.uiCheckAppend(x)
-		return fmt.Sprintf("(%s ++ [%s])", sub(x.Args[0]), sub(x.Args[1])), true
+		first := x.Args[0]
+		if id := t.uiCapped(first); id != nil {
+			first = id
+		}
+		return fmt.Sprintf("(%s ++ [%s])", sub(first), sub(x.Args[1])), true
 	}
 	return "", false
 }
@@ -532,6 +536,40 @@ func (t *translator) uiBuiltin(name string, x *ast.CallExpr, sub func(ast.Expr) 
 // writes beyond that slice's length, which no value reachable from the parameters observes as long as the
 // parameters are trees (no two slices of the parameters share an array: the standing assumption of the
 // translation, Prelude.lean).
+// uiCapped: e is v[:len(v):len(v)] for a variable v (the full slice expression that sets the capacity to
+// the length, so that a following append copies): returns v.  The value is v's, and the expression cannot
+// panic (0 <= len(v) <= len(v) <= cap(v)).
+func (t *translator) uiCapped(e ast.Expr) *ast.Ident {
+	sl, ok := e.(*ast.SliceExpr)
+	if !ok || !sl.Slice3 || sl.Low != nil {
+		return nil
+	}
+	v, ok := sl.X.(*ast.Ident)
+	if !ok {
+		return nil
+	}
+	obj := t.p.info.Uses[v]
+	isLenV := func(x ast.Expr) bool {
+		c, ok := x.(*ast.CallExpr)
+		if !ok || len(c.Args) != 1 {
+			return false
+		}
+		f, ok := c.Fun.(*ast.Ident)
+		if !ok || f.Name != "len" {
+			return false
+		}
+		if _, isB := t.p.info.Uses[f].(*types.Builtin); !isB {
+			return false
+		}
+		a, ok := c.Args[0].(*ast.Ident)
+		return ok && obj != nil && t.p.info.Uses[a] == obj
+	}
+	if !isLenV(sl.High) || !isLenV(sl.Max) {
+		return nil
+	}
+	return v
+}
+
 func (t *translator) uiCheckAppend(call *ast.CallExpr) {
 	if t.uiAppend[call] {
 		return
@@ -552,6 +590,9 @@ func (t *translator) uiCheckAppend(call *ast.CallExpr) {
 	}
 	dst, ok1 := as.Lhs[0].(*ast.Ident)
 	src, ok2 := call.Args[0].(*ast.Ident)
+	if c := t.uiCapped(call.Args[0]); c != nil {
+		src, ok2 = c, true
+	}
 	if !ok1 || !ok2 {
 		t.fail(as, "append other than `v = append(v, x)` on a local variable")
 	}
@@ -600,6 +641,11 @@ func (t *translator) uiSliceCopied(body *ast.BlockStmt, obj *types.Var) ast.Node
 								if _, isB := t.p.info.Uses[f].(*types.Builtin); isB {
 									if a, ok := is(c.Args[0]); ok {
 										allowed[a] = true
+									}
+									if cv := t.uiCapped(c.Args[0]); cv != nil {
+										if a, ok := is(cv); ok {
+											allowed[a] = true
+										}
 									}
 								}
 							}
